@@ -302,3 +302,58 @@ Proof.
   rewrite (map_opt_ext _ (fun m => eps_compare c s m)); [reflexivity|].
   intro m. apply tie_eps_compare. exact H.
 Qed.
+
+(* ---- C05 stated about the GENERATED code: an Archive whose add is the definition produced from Archive.add and
+   whose comparator is the definition produced from EpsilonDominance.compare, offered ANY list of well-formed
+   solutions one by one, always answers, and its contents satisfy the invariant EInv of Props/C05.v
+   (one member per box, no member's box dominated by another's, everything offered is epsilon-covered);
+   the generated comparator itself is transitive on "dominates". ---- *)
+From PV Require Import Proofs.EpsilonProofs Props.C05.
+
+Definition gen_eps_cmp (c : ecfg) (nconstrs : Z) (s1 s2 : esol) : option Z :=
+  Core.EpsilonDominance_compare Q Qops (e_eps c) nconstrs (Z.of_nat (length (e_dirs c))) (e_dirs c)
+                                (e_cv s1) (e_objs s1) (e_cv s2) (e_objs s2).
+
+Fixpoint gen_eps_run_from (c : ecfg) (nconstrs : Z) (a : list esol) (l : list esol) : option (list esol) :=
+  match l with
+  | [] => Some a
+  | s :: r => match Core.Archive_add esol (gen_eps_cmp c nconstrs) a s with
+              | None => None
+              | Some (a', _) => gen_eps_run_from c nconstrs a' r
+              end
+  end.
+
+Lemma eps_map_opt_ext {A B} (f g : A -> option B) : (forall x, f x = g x) -> forall l, eps_map_opt f l = eps_map_opt g l.
+Proof. intros H l. induction l as [|x r IH]; cbn [eps_map_opt]; [reflexivity|]. now rewrite H, IH. Qed.
+
+Lemma gen_eps_run_is_model : forall c nconstrs, e_con c = (nconstrs >? 0) ->
+  forall l a, gen_eps_run_from c nconstrs a l = eps_plain_run_from c a l.
+Proof.
+  intros c nconstrs Hcon. induction l as [|s r IH]; intro a; cbn [gen_eps_run_from eps_plain_run_from]; [reflexivity|].
+  rewrite tie_eps_archive_add. unfold eps_plain_add, eps_arch_add.
+  rewrite (eps_map_opt_ext (gen_eps_cmp c nconstrs s) (eps_compare c s)) by (intro x; apply tie_eps_compare; exact Hcon).
+  destruct (eps_map_opt (eps_compare c s) a) as [flags|]; [|reflexivity].
+  destruct (existsb (fun x => x >? 0) flags); apply IH.
+Qed.
+
+Theorem tie_c05_generated_archive_invariant : forall c nconstrs l, e_con c = (nconstrs >? 0) ->
+  wf_cfg c -> Forall (wf_sol c) l ->
+  exists a imp, gen_eps_run_from c nconstrs [] l = Some a /\ EInv c l a imp.
+Proof.
+  intros c nconstrs l Hcon Hc Hl.
+  destruct (c05_einv_all_histories c l Hc Hl) as [a [imp [Hr HI]]].
+  exists a, imp. split; [|exact HI].
+  rewrite (gen_eps_run_is_model c nconstrs Hcon). fold (eps_plain_run c l).
+  rewrite (c05_plain_archive_same_contents c l Hc Hl), Hr. reflexivity.
+Qed.
+
+Theorem tie_c05_generated_eps_dominates_trans : forall c nconstrs x y z, e_con c = (nconstrs >? 0) ->
+  wf_cfg c -> wf_sol c x -> wf_sol c y -> wf_sol c z ->
+  gen_eps_cmp c nconstrs x y = Some (-1) -> gen_eps_cmp c nconstrs y z = Some (-1) -> gen_eps_cmp c nconstrs x z = Some (-1).
+Proof.
+  intros c nconstrs x y z Hcon Hc Hx Hy Hz. unfold gen_eps_cmp. rewrite !(tie_eps_compare c nconstrs _ _ Hcon).
+  exact (c05_eps_dominates_trans c x y z Hc Hx Hy Hz).
+Qed.
+
+Print Assumptions tie_c05_generated_archive_invariant.
+Print Assumptions tie_c05_generated_eps_dominates_trans.
